@@ -19,6 +19,16 @@ fn values<F: Flt>(l: &Layout, max: usize) -> Vec<Parts<F>> {
     // every presence pattern x a sweep of the value alphabet through the slots
     let g = l.ngroups();
     let mut out = Vec::new();
+    // present parts whose (innermost) real entries are all zeros, negative zeros or values that
+    // underflow in single precision, while the derivative parts carried by nested entries are not
+    for z in [0.0, -0.0, 1e-60] {
+        let vals: Vec<F> = (0..l.nslots()).map(|i| {
+            let name = &l.slots[i].name;
+            let inner_derivative = name.ends_with(".eps") || name.contains(".v1") || name.contains(".v2") || name.contains(".eps");
+            F::from64(if i == 0 { 1.5 } else if inner_derivative { VALS[1 + i % 5] } else { z })
+        }).collect();
+        out.push(Parts { vals, present: vec![true; g] });
+    }
     for pat in 0..(1usize << g) {
         let present: Vec<bool> = (0..g).map(|i| pat & (1 << i) == 0).collect();
         for shift in 0..VALS.len() {
@@ -37,7 +47,8 @@ fn alpha_eq<A: Flt, B: Flt>(la: &Layout, a: &Parts<A>, lb: &Layout, b: &Parts<B>
         let x = cast(a.alpha(la, i).to64());
         let y = b.alpha(lb, i).to64();
         // numerically equal; a zero that is present on both sides must also keep its sign
-        let sign_lost = x == 0.0 && y == 0.0 && a.slot_present(la, i) && b.slot_present(lb, i) && x.is_sign_negative() != y.is_sign_negative();
+        // (a present -0.0 must not turn into an absent part either: the rounded value of -0.0 is -0.0)
+        let sign_lost = x == 0.0 && y == 0.0 && a.slot_present(la, i) && x.is_sign_negative() != (b.slot_present(lb, i) && y.is_sign_negative());
         !(x == y || (x.is_nan() && y.is_nan())) || sign_lost
     })
 }
@@ -224,6 +235,92 @@ macro_rules! all_widths {
     }};
 }
 
+/// Fresh heap memory is filled with 0x55, so that a slot which the conversion code leaves
+/// uninitialised (or drops before writing it) is not accidentally a valid "empty" value: dropping it
+/// frees the pointer 0x5555..., which kills the process (reported through the canary run) and is an
+/// error under Miri and valgrind.
+struct Fill;
+unsafe impl std::alloc::GlobalAlloc for Fill {
+    unsafe fn alloc(&self, l: std::alloc::Layout) -> *mut u8 {
+        let p = std::alloc::System.alloc(l);
+        if !p.is_null() {
+            std::ptr::write_bytes(p, 0x55, l.size());
+        }
+        p
+    }
+    unsafe fn dealloc(&self, p: *mut u8, l: std::alloc::Layout) {
+        std::alloc::System.dealloc(p, l)
+    }
+    unsafe fn alloc_zeroed(&self, l: std::alloc::Layout) -> *mut u8 {
+        std::alloc::System.alloc_zeroed(l)
+    }
+    unsafe fn realloc(&self, p: *mut u8, l: std::alloc::Layout, n: usize) -> *mut u8 {
+        std::alloc::System.realloc(p, l, n)
+    }
+}
+#[global_allocator]
+static ALLOC: Fill = Fill;
+
+/// conversions of vector dual numbers whose inner number type owns heap memory (a dynamically sized
+/// dual number): the element-wise conversion loops handle values with destructors there
+fn heap_inner(st: &mut Stats) {
+    use nalgebra::{DVector, SVector};
+    type In64 = DualDVec64;
+    type In32 = DualDVec32;
+    let inner = |re: f64, g: &[f64]| In64::new(re, Derivative::some(DVector::from_row_slice(g)));
+    let flat64 = |x: &In64| -> Vec<f64> { std::iter::once(x.re).chain(x.eps.clone().unwrap_generic(Dyn(3), Const::<1>).iter().copied()).collect() };
+    let flat32 = |x: &In32| -> Vec<f64> { std::iter::once(x.re as f64).chain(x.eps.clone().unwrap_generic(Dyn(3), Const::<1>).iter().map(|v| *v as f64)).collect() };
+    let entries = [inner(1.5, &[0.5, -2.0, 0.25]), inner(-0.75, &[1.0 / 3.0, 4.0, -1.5]), inner(2.25, &[0.0, 1e-3, 7.0])];
+    let mut fail = |st: &mut Stats, what: String| {
+        st.violation(Violation { sig: format!("convert heap-inner {}", what.split(':').next().unwrap()), case: json!({"conversion": "DualVec<DualDVec64> -> DualVec<DualDVec32>"}), what });
+    };
+    let cast = |v: &Vec<f64>| -> Vec<f64> { v.iter().map(|x| (*x as f32) as f64).collect() };
+    // DualVec<DualDVec64, f64, 2> and the dynamic variant, checked / unchecked narrowing and widening back
+    {
+        type Sup = DualVec<In64, f64, Const<2>>;
+        type Sub = DualVec<In32, f32, Const<2>>;
+        let x = Sup::new(entries[0].clone(), Derivative::some(SVector::<In64, 2>::from([entries[1].clone(), entries[2].clone()])));
+        st.evaluations += 4;
+        let member = <Sub as SubsetOf<Sup>>::is_in_subset(&x);
+        let checked = <Sub as SubsetOf<Sup>>::from_superset(&x);
+        let unchecked: Sub = <Sub as SubsetOf<Sup>>::from_superset_unchecked(&x);
+        if !member || checked.is_none() {
+            fail(st, format!("from_superset: is_in_subset = {member}, is_some = {}", checked.is_some()));
+        }
+        for (name, y) in [("from_superset", checked), ("from_superset_unchecked", Some(unchecked))] {
+            if let Some(y) = y {
+                let e = y.eps.clone().unwrap_generic(Const::<2>, Const::<1>);
+                let ok = flat32(&y.re) == cast(&flat64(&entries[0])) && flat32(&e[0]) == cast(&flat64(&entries[1])) && flat32(&e[1]) == cast(&flat64(&entries[2]));
+                if !ok {
+                    fail(st, format!("{name}: the narrowed parts are not the per-part casts"));
+                }
+                let back: Sup = SubsetOf::<Sup>::to_superset(&y);
+                let eb = back.eps.clone().unwrap_generic(Const::<2>, Const::<1>);
+                if flat64(&eb[1]) != cast(&flat64(&entries[2])) {
+                    fail(st, format!("{name}: widening the narrowed value back changed a part"));
+                }
+            }
+        }
+    }
+    {
+        type Sup = Dual2Vec<In64, f64, Dyn>;
+        type Sub = Dual2Vec<In32, f32, Dyn>;
+        let v1 = nalgebra::OMatrix::<In64, nalgebra::U1, Dyn>::from_iterator(2, [entries[1].clone(), entries[2].clone()]);
+        let v2 = nalgebra::OMatrix::<In64, Dyn, Dyn>::from_fn(2, 2, |i, j| entries[(i + 2 * j) % 3].clone());
+        let x = Sup::new(entries[0].clone(), Derivative::some(v1), Derivative::some(v2));
+        st.evaluations += 2;
+        match <Sub as SubsetOf<Sup>>::from_superset(&x) {
+            Some(y) => {
+                let h = y.v2.clone().unwrap_generic(Dyn(2), Dyn(2));
+                if flat32(&h[(1, 0)]) != cast(&flat64(&entries[1])) || flat32(&h[(0, 1)]) != cast(&flat64(&entries[2])) {
+                    fail(st, "from_superset Dual2Vec: the narrowed Hessian part is not the per-part cast".into());
+                }
+            }
+            None => fail(st, "from_superset Dual2Vec: None for a representable value".into()),
+        }
+    }
+}
+
 fn run_all(st: &mut Stats, max_dim: usize, max_vals: usize) {
     all_widths!(st, max_vals, Dual, Dims::NONE);
     all_widths!(st, max_vals, Dual2, Dims::NONE);
@@ -232,6 +329,12 @@ fn run_all(st: &mut Stats, max_dim: usize, max_vals: usize) {
     conv!(st, Dual<Dual64, f64>, f64, Dual<Dual32, f32>, f32, Dims::NONE, max_vals);
     conv!(st, Dual2<Dual32, f32>, f32, Dual2<Dual64, f64>, f64, Dims::NONE, max_vals);
     conv!(st, Dual<Dual2_64, f64>, f64, Dual<Dual2_32, f32>, f32, Dims::NONE, max_vals);
+    // nested vector types: the entries of the derivative parts are dual numbers themselves
+    conv!(st, DualVec<Dual32, f32, Const<2>>, f32, DualVec<Dual64, f64, Const<2>>, f64, Dims::n(2), max_vals);
+    conv!(st, DualVec<Dual64, f64, Const<2>>, f64, DualVec<Dual32, f32, Const<2>>, f32, Dims::n(2), max_vals);
+    conv!(st, Dual2Vec<Dual64, f64, Const<2>>, f64, Dual2Vec<Dual32, f32, Const<2>>, f32, Dims::n(2), max_vals);
+    conv!(st, DualVec<Dual64, f64, Dyn>, f64, DualVec<Dual32, f32, Dyn>, f32, Dims::n(2), max_vals);
+    heap_inner(st);
     for n in 0..=max_dim {
         all_widths!(st, max_vals, DualVec, Dims::n(n), Dyn);
         all_widths!(st, max_vals, Dual2Vec, Dims::n(n), Dyn);
